@@ -210,7 +210,9 @@ func (sp *SAMLServiceProvider) MetadataWithSLO(validityHours int64) (*types.Enti
 	}
 
 	return &types.EntityDescriptor{
-		ValidUntil: sp.Clock.Now().UTC().Add(time.Duration(validityHours) * time.Hour), // default 7 days
+		// A time.Duration cannot hold more than about 292 years worth of hours:
+		// whole days (24 hours each in UTC) are counted through the calendar.
+		ValidUntil: sp.Clock.Now().UTC().AddDate(0, 0, int(validityHours/24)).Add(time.Duration(validityHours%24) * time.Hour), // default 7 days
 		EntityID:   sp.ServiceProviderIssuer,
 		SPSSODescriptor: &types.SPSSODescriptor{
 			AuthnRequestsSigned:        sp.SignAuthnRequests,
